@@ -74,6 +74,8 @@ def conclude(mod, tier, reports, problems, insitu, wall):
             got = len(hashes)
         elif key == "evaluations":
             got = evaluations
+        elif key.startswith("#"):
+            got = sum(1 for k in counters if k.startswith(key[1:]))
         else:
             got = counters.get(key, 0)
         if got < lo:
